@@ -526,6 +526,31 @@ Section HB.
       split; [eapply InvC_step; eauto|split; [eapply TInv_step; eauto|eapply WInv_step; eauto]].
   Qed.
 
+  (* no worker access comes after the caller's read *)
+  Lemma acc_before_read items tr s i j t1 a1 t2 :
+    execs c (init c items) tr s ->
+    nth_error tr i = Some (t1, a1) -> nth_error tr j = Some (t2, LMainRead) ->
+    is_acc a1 = true -> i < j.
+  Proof.
+    intros E Hi Hj Ha1.
+    destruct (WInv_execs items tr s E) as (I & T & W).
+    assert (Hin : In (t2, LMainRead) tr) by (eapply nth_error_In; eauto).
+    assert (Hp : ph s <= 7).
+    { destruct (le_lt_dec (ph s) 7); auto. exfalso. eapply (w_noread _ _ W); eauto. lia. }
+    destruct (w_wait _ _ W Hp) as (tr1 & tr2 & -> & Hno & Hdone & Hnr).
+    assert (Hj2 : List.length tr1 < j).
+    { destruct (lt_eq_lt_dec j (List.length tr1)) as [[Hlt|Heq]|Hgt]; auto; exfalso.
+      - rewrite nth_error_app1 in Hj by auto. apply nth_error_In in Hj. eapply Hnr; eauto.
+      - subst j. rewrite nth_error_mid in Hj. discriminate. }
+    assert (Hi1 : i < List.length tr1).
+    { destruct (lt_eq_lt_dec i (List.length tr1)) as [[Hlt|Heq]|Hgt]; auto; exfalso.
+      - subst i. rewrite nth_error_mid in Hi. inversion Hi; subst. discriminate.
+      - rewrite nth_error_app2 in Hi by lia.
+        destruct (i - List.length tr1) as [|n] eqn:En; [lia|]. simpl in Hi.
+        apply nth_error_In in Hi. rewrite (Hno _ _ Hi) in Ha1. discriminate. }
+    lia.
+  Qed.
+
   (** the caller's reads of rowsCount / asyncBlocks (sortBlocks) happen after every worker
       access: worker access -po-> its wg.Done -sync-> wg.Wait -po-> the read *)
   Theorem main_read_hb items tr s i j t1 a1 t2 :
@@ -576,5 +601,20 @@ Section HB.
     - exists t1, a1, t1, LWgDone. repeat split; auto.
     - exists t1, LWgDone, 0, LWait. repeat split; auto.
     - exists 0, LWait, 0, LMainRead. repeat split; auto.
+  Qed.
+
+  (** no data race: any two conflicting accesses to rowsCount / asyncBlocks by different
+      threads are ordered by happens-before *)
+  Theorem no_race items tr s i j t1 a1 t2 a2 :
+    execs c (init c items) tr s ->
+    i < j -> nth_error tr i = Some (t1, a1) -> nth_error tr j = Some (t2, a2) ->
+    conflict a1 a2 = true -> thread_of t1 <> thread_of t2 ->
+    hb tr i j.
+  Proof.
+    intros E Hij Hi Hj Hc Hne.
+    destruct a1, a2; simpl in Hc; try discriminate.
+    - eapply accesses_hb; eauto; try (intros ->; now apply Hne).
+    - eapply main_read_hb; eauto.
+    - exfalso. pose proof (acc_before_read items tr s j i t2 (LAcc k f) t1 E Hj Hi eq_refl). lia.
   Qed.
 End HB.
